@@ -187,19 +187,25 @@ def decr : Val → Val
   | .real q => .real (q - 1)
   | .text s => .text s
 
-/-- `_format_get_output`, the tail of `get`: empty result, the −1 on a requested rowID column, flattening of one-column results -/
+/-- `if 'rowID' in columns: index = columns.split(',').index('rowID'); data[i][index] -= 1` -/
+def fixRowID (columns : Py.Str) (data : List (List Val)) : Except Err (List (List Val)) :=
+  if Py.strIn rowIDName columns then
+    match (Py.splitOn ',' columns).idxOf? rowIDName with
+    | none => .error .valueError                    -- `.index('rowID')`
+    | some index => .ok (data.map (fun r => r.modify index decr))
+  else .ok data
+
+/-- `_format_get_output`, the tail of `get`: empty result, the −1 on a requested rowID column, flattening of
+    one-column results -/
 def finish (columns : Py.Str) (data : List (List Val)) : Except Err (List Item) :=
   match data with
   | [] => .ok []
-  | r0 :: _ => do
-    let data' ←
-      if Py.strIn rowIDName columns then
-        match (Py.splitOn ',' columns).idxOf? rowIDName with
-        | none => .error .valueError                    -- `.index('rowID')`
-        | some index => .ok (data.map (fun r => r.modify index decr))
-      else .ok data
-    if r0.length = 1 then .ok (data'.map (fun r => .one (r.headD (.int 0))))
-    else .ok (data'.map .many)
+  | r0 :: _ =>
+    match fixRowID columns data with
+    | .error e => .error e
+    | .ok data' =>
+      if r0.length = 1 then .ok (data'.map (fun r => .one (r.headD (.int 0))))
+      else .ok (data'.map .many)
 
 /-- `[v[i:i+n] for i in range(0, len(v), n)]` (fuel = `len(v)`; `n > 0`) -/
 def chunksAux {α : Type} (n : Nat) : Nat → List α → List (List α)
